@@ -42,12 +42,10 @@ func predictedBits(n uint, r float64) float64 {
 type tap struct {
 	mu        sync.Mutex
 	addK      string // ARGV[1] (hashIterations) of the last add script invocation received by the server
-	existsK   string
 	roEvals   int64
 	bfSet     int64
 	bfGet     int64
 	bfGetRO   int64
-	evalErrs  []string
 	scriptRun int64
 }
 
@@ -73,8 +71,6 @@ func (tp *tap) hook(e fakeredis.Event) {
 		switch nk {
 		case 2:
 			tp.addK = e.Argv[3+nk]
-		case 1:
-			tp.existsK = e.Argv[3+nk]
 		}
 	case "script":
 		tp.scriptRun++
